@@ -1,6 +1,7 @@
 package props
 
 import (
+	"crypto/rsa"
 	"bytes"
 	"crypto/x509"
 	"fmt"
@@ -228,6 +229,11 @@ func c10Case(c *core.Ctx, blk c10Block, tr c10Transport, kp *fx.KeyPair, pt []by
 		enc = e
 		pkgEncKey = kp.Cert
 		decKey = kp.RSA()
+		if c.Rng.Intn(4) == 0 { // the same key as an application may hold it: modulus and exponents only, no primes
+			full := kp.RSA()
+			decKey = &rsa.PrivateKey{PublicKey: full.PublicKey, D: full.D}
+			desc += "|key-without-primes"
+		}
 		cert = kp.Cert
 		replay["rsa_key"] = kp.Name
 	} else {
